@@ -48,7 +48,7 @@ Fixpoint replay (s : rstate) (ls : list xlabel) (i : nat) : nat * rstate :=
       end
   end.
 
-Record l_case := LC { l_fix4 : bool; l_fix14 : bool; l_fix15 : bool; l_labels : list xlabel; l_hist : list aev }.
+Record l_case := LC { l_fix4 : bool; l_fix14 : bool; l_fix15 : bool; l_fix16 : bool; l_labels : list xlabel; l_hist : list aev }.
 
 Definition rpc_code (p : rpc) : nat :=
   match p with RNone => 0 | RWatch => 1 | RRH _ => 2 | RCloseRunning => 3 | RWaitClosing => 4
@@ -58,7 +58,7 @@ Definition rpc_code (p : rpc) : nat :=
     (first rejected label or 0, model panicked, main Run pc code, successful Subscribes per handler,
      closed publishers among 0..7, monitor: None or (position, code) on the IMPLEMENTATION history) *)
 Definition l_run (c : l_case) :=
-  let '(r, s) := replay (rinit (l_fix4 c) (l_fix14 c) (l_fix15 c)) (l_labels c) 0 in
+  let '(r, s) := replay (rinit (l_fix4 c) (l_fix14 c) (l_fix15 c) (l_fix16 c)) (l_labels c) 0 in
   (r, panicked s, rpc_code (mainp s),
    map (fun h => h_subs (hs s h)) (seq 0 (nexth s)),
    map (pubClosed s) (seq 0 8),
